@@ -164,6 +164,11 @@ def check_summaries(ctx: Ctx):
 def check(ctx: Ctx):
     check_summaries(ctx)
     c18.check_roundtrip(ctx)  # R20.5 = R18.4: non-finite / missing cells become missing at load time
+    # "the recorded values": a statistic is made from the file as it is now - the aggregator keeps
+    # no parsed copy between calls (other processes append rows it would never see, R15.6)
+    from . import c03, c15
+
+    c03._guarded(ctx, "R15.6", c15.check_state_writers)
 
 
 _S = "panoptica/panoptica_statistics.py"
